@@ -619,6 +619,11 @@ class ReaderModel:
                 return a[1]
             p = to_poly(a)
             return p
+        if t[0] == "param":
+            # a header parameter of the assembler / skippers: every call site passes a byte string of the same known length
+            ls = {self.eng.param_lengths(q).get(t[1]) for q in (self.asm.qualname, self.eng.ubx_skipper, self.eng.nmea_skipper) if t[1] in self.eng.repo.func(q).params}
+            if len(ls) == 1 and isinstance(next(iter(ls)), int):
+                return next(iter(ls))
         return None
 
     def byte_name(self, term, i):
@@ -707,7 +712,7 @@ def read_script(eng: Engine, ctx: Ctx, rid: str, gate: dict | None):
     asm = m.asm
     ctx.touch(func=asm.qualname)
     hdr_param = asm.params[1] if len(asm.params) > 1 else None
-    se = eng.symeval(asm.qualname, bind={hdr_param: gate["arg"]}, uid_base=100)
+    se = eng.symeval(asm.qualname, bind={hdr_param: gate["arg"]}, uid_base=100, len_hook=m.length_of)
     reads = [e for e in se.effects if e.kind == "call" and is_self_call(e.term, m.prim.name)]
     loc = eng.loc(asm, asm.node)
 
@@ -1265,7 +1270,7 @@ def eof_discipline(eng: Engine, ctx: Ctx, rid: str, model: ReaderModel):
         caller = eng.repo.funcs[cs.caller]
         if caller.qualname == model.asm.qualname:
             continue  # evaluated below with the header bound to the gate's bytes
-    funcs = sorted({cs.caller for cs in sites})
+    funcs = eng.functions_reaching(prim.qualname)  # through forwarding helpers that the term evaluator inlines
     for q in funcs:
         fn = eng.repo.funcs[q]
         se = eng.symeval(q)
@@ -1349,7 +1354,8 @@ def ubx_skip(eng: Engine, ctx: Ctx, rid: str, model: ReaderModel):
         ctx.check(bool(okp), rid, f.qualname, "second request", expected=f"L + {fr['checksum_bytes']}", found=repr(p) if p is not None else show(r2[3][0])[:80], **eng.loc(f, reads[1].node))
         if Lterm is not None:
             bvc = BVContext()
-            bvc.cat = CatContext(lambda t: fr["header_after_sync"] if t == r1 else None)
+            plen = eng.param_lengths(f.qualname)
+            bvc.cat = CatContext(lambda t: fr["header_after_sync"] if t == r1 else (plen.get(t[1]) if t[0] == "param" else None))
             bv = bvc.to_bv(Lterm)
             off = fr["length_offset_in_header"]
             from ..domains import BV as _BV
